@@ -191,3 +191,18 @@ CHECKS['C01'] = dict(
                 counters=['unity_intervals', 'continuity_conditions']),
     assumptions=[A_SHAPE],
 )
+
+CHECKS['C12'] = dict(
+    title='Interpolation reproduces the data with the promised smoothness and boundaries',
+    level='exploration',
+    technique='bounded-exhaustive enumeration of abscissa sets, orders, boundary-condition sets and right-hand sides on the real interpolation routine; exact half decided by exact evaluation of every condition with an exact elimination solver, unique solvability decided independently by exact rank of the reference formulation; bundled-solver half by exact evaluation of the conditions on the returned floating-point coefficients against a normwise backward-error bound',
+    level_text='Every abscissa set with 2..4 (thorough 2..5) nodes over the gap alphabet {1,1/2,3} ({1,1/2,3,1/8}), as a whole grid and as a window of a larger grid, orders 1..4, the default boundary set and every set of order-1 distinct (node, derivative) pairs, right-hand sides = all unit ordinates, all unit boundary values and a generic combination (the solution is linear in them). With the exact solver all conditions hold exactly; with the Eigen adapter (double, long double) every residual stays below 2^20 eps (N R |c| + |rhs|).',
+    level_note='Trusted: GMP; the reference formulation of the conditions (global monomial basis) in checks/c12_interp.cpp. The floating-point half is tolerance-based evidence on an alphabet, not a proof of backward stability; the largest observed residual/bound ratio is reported in counters.',
+    units=lambda tier: [unit('exact', 'checks/c12_interp.cpp', 'exact'), unit('exact-chk', 'checks/c12_interp.cpp', 'chk'),
+                        unit('eigen', 'checks/c12_interp.cpp', 'exact', flags=['-DVF_EIGEN'])],
+    rule='cases = (solver, order, abscissa set, whole/embedded, boundary set, right-hand side). Non-trivial = the problem is uniquely solvable (others are counted in skipped_not_uniquely_solvable).',
+    bounds=dict(quick='n=2..4 nodes, gaps {1,1/2,3} (exact) / {1,1/2,3,1/8} (Eigen), orders 1..4, all boundary sets', thorough='n=2..5, gaps {1,1/2,3,1/8}'),
+    guards=dict(classes=['solved:default:whole', 'solved:default:embedded', 'solved:explicit:whole', 'not-uniquely-solvable', 'solved:double', 'solved:long double'],
+                counters=['conditions_checked', 'skipped_not_uniquely_solvable']),
+    assumptions=[A_SHAPE, 'the solution is linear in ordinates and boundary values, so unit right-hand sides decide all values (exact half)'],
+)
